@@ -111,6 +111,134 @@ add("C02", "keep", "else-removed", MX + "streamBuffer.go",
 		sb.buf.Write(f.Payload)
 		sb.nextRecvSeq++
 		return false, nil"""))
+add("C02", "keep", "pipe-shrinks-only-when-empty", MX + "streamBufferedPipe.go",
+    ("""	n, err := p.buf.Read(target)
+	// err will always be nil because we have already verified that buf.Len() != 0
+""", """	n, err := p.buf.Read(target)
+	// err will always be nil because we have already verified that buf.Len() != 0
+	if p.buf.Len() == 0 && p.buf.Cap() > 1<<20 {
+		p.buf = new(bytes.Buffer)
+	}
+"""))
+add("C02", "break", "pipe-shrinks-with-backlog", MX + "streamBufferedPipe.go",
+    ("""	n, err := p.buf.Read(target)
+	// err will always be nil because we have already verified that buf.Len() != 0
+""", """	n, err := p.buf.Read(target)
+	// err will always be nil because we have already verified that buf.Len() != 0
+	if p.buf.Cap() > 1<<20 {
+		p.buf.Reset()
+	}
+"""))
+add("C02", "break", "closing-padding-delivered", MX + "streamBuffer.go",
+    ("""		f = heap.Pop(&sb.sh).(*Frame)
+		if f.Closing != closingNothing {
+			return true, nil
+		} else {
+			sb.buf.Write(f.Payload)
+			sb.nextRecvSeq += 1
+		}""", """		f = heap.Pop(&sb.sh).(*Frame)
+		sb.buf.Write(f.Payload)
+		sb.nextRecvSeq += 1
+		if f.Closing != closingNothing {
+			return true, nil
+		}"""))
+add("C04", "break", "decoder-ignores-extralen-late-frames", MX + "obfs.go",
+    ("""	usefulPayloadLen := len(pldWithOverHead) - int(extraLen)
+""", """	extra := int(extraLen)
+	if seq >= padFirstNFrames && o.payloadCipher != nil {
+		extra = o.payloadCipher.Overhead()
+	}
+	usefulPayloadLen := len(pldWithOverHead) - extra
+"""))
+add("C04", "keep", "decoder-extralen-named-int", MX + "obfs.go",
+    ("""	usefulPayloadLen := len(pldWithOverHead) - int(extraLen)
+""", """	extra := int(extraLen)
+	usefulPayloadLen := len(pldWithOverHead) - extra
+"""))
+add("C05", "break", "ws-read-stops-at-full-buffer", CM + "websocket.go",
+    ("""		n += read
+	}
+	return
+}""", """		n += read
+		if n == len(buf) {
+			break
+		}
+	}
+	return
+}"""))
+add("C10", "break", "regrown-buffer-without-prefix", CM + "tls.go",
+    ("""	writeBuf := tls.writeBufPool.Get().(*[]byte)
+""", """	writeBuf := tls.writeBufPool.Get().(*[]byte)
+	if recordLayerLength+msgLen > cap(*writeBuf) {
+		*writeBuf = make([]byte, 3, recordLayerLength+msgLen)
+	}
+"""))
+add("C10", "keep", "regrown-buffer-keeps-prefix", CM + "tls.go",
+    ("""	writeBuf := tls.writeBufPool.Get().(*[]byte)
+""", """	writeBuf := tls.writeBufPool.Get().(*[]byte)
+	if recordLayerLength+msgLen > cap(*writeBuf) {
+		*writeBuf = append(make([]byte, 0, recordLayerLength+msgLen), (*writeBuf)[:3]...)
+	}
+"""))
+add("C13", "break", "template-restored-after-close-frame", MX + "session.go",
+    ("""		s.writingFrame.Closing = closingStream
+		s.writingFrame.Payload = payload
+""", """		tmpl := s.writingFrame
+		defer func() { s.writingFrame = tmpl }()
+		s.writingFrame.Closing = closingStream
+		s.writingFrame.Payload = payload
+"""))
+add("C16", "break", "down-credit-skipped-when-up-exhausted", UM + "localmanager.go",
+    ("""				responses = append(responses, resp)
+			}
+			err := bucket.Put([]byte("UpCredit"), i64ToB(newUp))
+			if err != nil {
+				log.Error(err)
+			}
+""", """				responses = append(responses, resp)
+				_ = bucket.Put([]byte("UpCredit"), i64ToB(newUp))
+				continue
+			}
+			err := bucket.Put([]byte("UpCredit"), i64ToB(newUp))
+			if err != nil {
+				log.Error(err)
+			}
+"""))
+add("C17", "break", "terminate-remembered-record", SV + "userpanel.go",
+    ("""			panel.activeUsersM.RLock()
+			user := panel.activeUsers[arrUID]
+			panel.activeUsersM.RUnlock()
+			if user != nil {
+				panel.TerminateActiveUser(user, resp.Message)
+			}""", """			if user := seenUsers[arrUID]; user != nil {
+				panel.TerminateActiveUser(user, resp.Message)
+			}"""),
+    ("""	statuses := make([]usermanager.StatusUpdate, 0, len(panel.usageUpdateQueue))
+""", """	statuses := make([]usermanager.StatusUpdate, 0, len(panel.usageUpdateQueue))
+	seenUsers := map[[16]byte]*ActiveUser{}
+"""),
+    ("""			numSession = user.NumSession()
+""", """			numSession = user.NumSession()
+			seenUsers[arrUID] = user
+"""))
+add("C20", "break", "altnames-only-single-blank-handled", CL + "state.go",
+    ("""	var filteredAlternativeNames []string
+	for _, alternativeName := range raw.AlternativeNames {
+		if len(alternativeName) > 0 {
+			filteredAlternativeNames = append(filteredAlternativeNames, alternativeName)
+		}
+	}
+	raw.AlternativeNames = filteredAlternativeNames
+""", """	if len(raw.AlternativeNames) == 1 && raw.AlternativeNames[0] == "" {
+		raw.AlternativeNames = nil
+	}
+"""))
+add("C20", "keep", "altnames-filter-by-string-compare", CL + "state.go",
+    ("""		if len(alternativeName) > 0 {
+			filteredAlternativeNames = append(filteredAlternativeNames, alternativeName)""", """		if alternativeName != "" {
+			filteredAlternativeNames = append(filteredAlternativeNames, alternativeName)"""))
+add("C12", "break", "receive-backlog-bound-lowered", MX + "recvBuffer.go",
+    ("const recvBufferSizeLimit = 1<<31 - 1", "const recvBufferSizeLimit = 1 << 24"))
 
 # ---------------------------------------------------------------- C03
 add("C03", "break", "closestream-no-buffer-close", MX + "session.go", ("	_ = s.recvBuf.Close() // recvBuf.Close should not return error\n", ""))
